@@ -428,6 +428,13 @@ Section Loop.
     destruct validate_LI as [(_ & _ & Ri) _]. apply (ri_bad _ _ Ri); auto.
   Qed.
 
+  (* the stack is empty at the end and everything reachable has been processed *)
+  Theorem processed_all :
+    vs_todo (validate W sem ftext tol outs) = [] /\
+    forall o n, In o outs -> n = o \/ anc n o ->
+      mem n (vs_verified (validate W sem ftext tol outs)) = true.
+  Proof. split; [apply terminates|apply reachable_verified]. Qed.
+
   Theorem reported_lt n : rep_get (vs_report (validate W sem ftext tol outs)) n <> None -> n < N.
   Proof.
     destruct validate_LI as [(_ & Ti & Ri) _]. intros H.
